@@ -458,8 +458,10 @@ func (env *Env) coerceTo(v *Val, s *Sort) *Term {
 	if t.Sort.Name == s.Name {
 		return recast(t, s)
 	}
-	if isUntypedInt(v) && s.Kind == SKBV && t.Op == "int" {
-		return BVLit(t.IVal, s.Bits)
+	if isUntypedInt(v) {
+		if r := coerceUntyped(t, s); r != nil {
+			return r
+		}
 	}
 	if isUntypedInt(v) && s.Kind == SKInt {
 		return recast(t, s)
@@ -769,6 +771,10 @@ func (env *Env) call(e *Expr) *Val {
 		n := "E|" + short(typeKey(v.Elem)) + "|"
 		arr := Select(env.cur.get(n, SArr(SRef, SArr(SInt, es))), v.Ref)
 		return scalar(App("mkSeq", SUnint("StrSeq"), arr, v.Len), nil)
+	case "bufAt":
+		v := env.eval(e.Args[0])
+		arr := env.cur.get("F|bytes.Buffer|", SArr(SRef, SOpq))
+		return scalar(App("bufBytes", SStr, Select(arr, recast(v.T, SRef))), types.Typ[types.String])
 	case "ref":
 		v := env.rvalue(env.eval(e.Args[0]))
 		if v.K == VSlice {
@@ -909,4 +915,24 @@ func sameShape(a *Val, ty types.Type) bool {
 	default:
 		return (a.K == VStruct || a.K == VTuple) && len(a.Fs) == len(sh.Fields)
 	}
+}
+
+// coerceUntyped converts an untyped integer expression (literals combined by
+// ite) to sort s.
+func coerceUntyped(t *Term, s *Sort) *Term {
+	switch t.Op {
+	case "int":
+		if s.Kind == SKBV {
+			return BVLit(t.IVal, s.Bits)
+		}
+		if s.Kind == SKInt {
+			return IntLitBig(t.IVal, s)
+		}
+	case "ite":
+		a, b := coerceUntyped(t.Args[1], s), coerceUntyped(t.Args[2], s)
+		if a != nil && b != nil {
+			return Ite(t.Args[0], a, b)
+		}
+	}
+	return nil
 }
